@@ -422,6 +422,32 @@ PROPS["C20"] = dict(
     assumptions=ASSUME_COMMON,
 )
 
+PROPS["C01"] = dict(
+    units=[dict(name="c01", src="props/c01.cpp", deps=["lib/pwc.hpp"])],
+    rule="case = numeric type x integrand (sum of 1..3 multilinear terms prod_k (a_k + b_k x_k), coefficients of either sign, "
+         "1/5 of the cases f == 1) x one of: PLAIN (1-4 dims, lattice M^d); VEGAS (1-3 dims, 2..128 bins, 1-4 sub-points per "
+         "bin, grid uniform / user incl. zero-width bins / power law / adapted by 1-6 real refinements, through "
+         "vegas_iteration or hep::vegas); multi-channel PWC (1-6 channels, K in {1,2,4,8}, <= 5 cells, <= 2 dims, common "
+         "jacobian factor 1 / 1+x / 2, densities early or late) either E2E with dyadic weights k_i/2^q (zeros allowed) and "
+         "the channel selection on a midpoint lattice too, or point level with arbitrary / refined weights and the "
+         "selection number at the midpoint of each enabled channel's interval; the scripted engine plays the complete "
+         "lattice (inner_evaluations = integrand calls); non-trivial: non-constant integrand and a non-uniform grid (bin "
+         "width off by > 0.1 %) resp. >= 2 enabled channels with different weights; distinct = distinct description",
+    quick=dict(shards=8, cases=400),
+    thorough=dict(shards=16, cases=8000),
+    floors={"VEGAS": 0.25, "MULTI": 0.25, "PLAIN": 0.1, "non-uniform-grid": 0.15, "disabled-channel": 0.05, "common-jacobian-factor": 0.1,
+            "uncovered-cells": 0.02},
+    level_text="noise-free quadrature oracle: the integrators are driven by a scripted engine that plays a complete "
+               "midpoint lattice in the space of the random numbers, so the estimate must equal the closed-form integral "
+               "of the multilinear integrand (over the cells covered by an enabled channel) within 64 eps (d + channels) "
+               "sum_terms prod(|a_k| + |b_k|); f == 1 checks measure preservation alone; exploration over generated grids, "
+               "channel sets, weights and integrands",
+    level_note="trusted: the closed form, the scripted engine and the harness's PWC maps (normalised by construction); "
+               "channel maps outside the PWC family have no exact oracle and are not used here",
+    technique="rapidcheck over choice tapes; scripted lattice engine + closed-form integral oracle",
+    assumptions=ASSUME_COMMON,
+)
+
 NOT_APPLICABLE = {}
 
 ENGINES = [
